@@ -55,8 +55,8 @@ Section Loader.
   | SrcFrame (tf : list R)          (* a TensorFrame *)
   | SrcDataset (ds : dataset).      (* a Dataset, materialized or not *)
 
-  (* how torch is asked to produce index batches (only the mutually compatible
-     keyword combinations are expressible) *)
+  (* how torch is asked to produce index batches (sampler / shuffle / batch_sampler are
+     mutually exclusive by construction; batch_sampler + drop_last is rejected in loader_init) *)
   Inductive sampling :=
   | Sequential                                   (* shuffle=False, no sampler *)
   | Shuffled (order : list nat)                  (* shuffle=True: order drawn by RandomSampler *)
@@ -82,10 +82,17 @@ Section Loader.
     ld_drop_last : bool
   }.
 
-  (* DataLoader.__init__: the user's collate_fn is popped and never looked at;
-     a Dataset is materialized first; shuffle=True over an empty source is
-     turned into shuffle=False (torch's RandomSampler rejects empty sources);
-     torch rejects batch_size <= 0 (ValueError) *)
+  (* DataLoader.__init__:
+       kwargs.pop('collate_fn', None)            -- the user's collate_fn is popped and never looked at
+       isinstance(dataset, Dataset) -> dataset.materialize().tensor_frame
+       if len(dataset) == 0:                     -- torch's RandomSampler rejects empty sources
+           if kwargs.get('shuffle'): kwargs['shuffle'] = False
+           elif len(args) >= 2 and args[1]: args = (args[0], False) + args[2:]
+     i.e. a requested shuffle over an empty source becomes no shuffle, whether `shuffle`
+     was passed by keyword or positionally (`Shuffled _, 0 => Sequential` below mirrors
+     both branches; the harness builds loaders in both forms).
+     torch itself (modelled): batch_size <= 0 is a ValueError, and batch_sampler is
+     mutually exclusive with drop_last (ValueError). *)
   Definition loader_init (src : source) (kw : kwargs) : option loader :=
     tfn <- match src with
            | SrcFrame tf => Some (tf, length tf)
@@ -94,6 +101,7 @@ Section Loader.
                Some (tf, ds_len ds)
            end ;;
     if (kw_batch_size kw =? 0) then None
+    else if (match kw_sampling kw with BatchSampler _ => kw_drop_last kw | _ => false end) then None
     else
       Some {| ld_tensor_frame := fst tfn; ld_n := snd tfn;
               ld_batch_size := kw_batch_size kw;
